@@ -68,6 +68,10 @@ def check(ctx, rep):
     for f, bb, s in sites:
         root = [r for r in time.built if r.path == f.root]
         if not root:
+            # the body was lifted out of the function (a method of a private struct, a helper): the function it was spliced into
+            hr = time.host_root(f)
+            root = [r for r in time.built if r.kind != 'Closure' and r.kpath == hr]
+        if not root:
             rep.bad('R18.a', '%s|root' % f.kpath, 'enclosing function not found')
             continue
         r = root[0]
@@ -83,6 +87,11 @@ def check(ctx, rep):
         idop = dict(zip(s['rv']['fields'], s['rv']['ops']))['id']
         if f is r:
             same = all(o.kind == 'call' and o.bb == gb for o in origins(f, idop)) and bool(origins(f, idop))
+        elif f.root != r.path:
+            # lifted body: follow the id through captures / struct fields back to the function
+            from rules.props import prims as _pr
+            tr = _pr.trace_to_root(time, f, idop, r)
+            same = bool(tr) and all(h is r and o.kind == 'call' and o.bb == gb for h, o in tr)
         else:
             names, calls = c17.param_names(f, idop, extra=[])
             # the captured variable must be initialised from the get_timer_id call in the root function
@@ -122,7 +131,7 @@ def check(ctx, rep):
     # ---- R18.b / R18.c / R18.d on the two command task bodies
     bodies = {}
     for f, bb, s in sites:
-        if f.kind == 'Closure' and f.coroutine and 'command::Time' in f.path:
+        if f.kind == 'Closure' and f.coroutine and 'command::Time' in time.host_root(f):
             bodies[s['rv']['variant']] = (f, bb, s)
     if set(bodies) != {'NotifyAt', 'NotifyAfter'}:
         rep.bad('R18.b', 'bodies', 'command-API task bodies not found: %s' % sorted(bodies))
